@@ -36,6 +36,7 @@ type cliScript struct {
 	Transport     string   `json:"transport"` // stdin | file | files | files-with-stdin
 	Cuts          []int    `json:"cuts"`      // byte positions (mod len) where the input is cut into files
 	OutFile       bool     `json:"out_file"`
+	StaleOut      bool     `json:"stale_out_file"` // the -o file exists before the run
 	LongLineBytes int      `json:"long_line_bytes"` // >0: the last query carries a string literal this long
 }
 
@@ -213,6 +214,10 @@ func runCLI(s *cliScript, input string) (cliRun, error) {
 	outPath := ""
 	if s.OutFile {
 		outPath = filepath.Join(dir, "out.sql")
+		if s.StaleOut {
+			// the output file exists already and is longer than what this run writes
+			os.WriteFile(outPath, []byte(strings.Repeat("-- stale line from an earlier run\n", 400)), 0o644)
+		}
 		args = append([]string{"-o", outPath}, args...)
 	}
 	ctx, cancel := context.WithTimeout(context.Background(), 60*time.Second)
@@ -260,7 +265,7 @@ func checkCLI(s *cliScript) (msg string, harnessErr string) {
 		}
 		got = run.outFile
 	}
-	if s.LongLineBytes > 0 {
+	if s.LongLineBytes > 65000 {
 		// acceptable: complete correct processing, or a reported failure with
 		// stdout a prefix of the expected output
 		if got == exp.stdout && (run.exit != 0) == (exp.failures > 0) {
@@ -378,15 +383,32 @@ func TestC16Scripts(t *testing.T) {
 		s.Transport = rapid.SampledFrom([]string{"stdin", "stdin", "file", "files", "files", "files-with-stdin"}).Draw(rt, "transport")
 		s.Cuts = []int{rapid.IntRange(0, 100000).Draw(rt, "cut1"), rapid.IntRange(0, 100000).Draw(rt, "cut2")}
 		s.OutFile = rapid.IntRange(0, 3).Draw(rt, "outfile") == 0
+		s.StaleOut = s.OutFile && rapid.Bool().Draw(rt, "staleout")
 		// an unterminated statement whose text ends in a comment needs the newline
 		if len(s.Stmts) > 0 && !s.FinalSemi {
 			s.FinalNewline = s.FinalNewline || strings.Contains(s.Stmts[len(s.Stmts)-1].Text, "//")
 		}
-		if rapid.IntRange(0, 24).Draw(rt, "longline") == 0 {
+		switch rapid.IntRange(0, 24).Draw(rt, "longline") {
+		case 0:
+			// a line beyond the line reader's 64 KiB limit
 			s.LongLineBytes = 66000 + rapid.IntRange(0, 4000).Draw(rt, "longby")
 			s.Stmts = append(s.Stmts, cliStmt{"query", "T | where a == '" + strings.Repeat("x", s.LongLineBytes) + "'"}, cliStmt{"query", "U | count"})
 			s.Seps = append(s.Seps, "\n", "\n")
 			kinds += "XQ"
+		case 1, 2:
+			// long lines below that limit must simply work: a long string, a long
+			// in-list and a long comment on one line each
+			s.LongLineBytes = 3000 + rapid.IntRange(0, 50000).Draw(rt, "mediumby")
+			var items []string
+			for i := 0; len(strings.Join(items, ", ")) < s.LongLineBytes; i++ {
+				items = append(items, fmt.Sprintf("\"ITEM_%05d\"", i))
+			}
+			s.Stmts = append(s.Stmts,
+				cliStmt{"query", "T | where a == '" + strings.Repeat("y", s.LongLineBytes) + "' | count"},
+				cliStmt{"query", "T | where s in (" + strings.Join(items, ", ") + ") | take 1"},
+				cliStmt{"query", "U | count // " + strings.Repeat("long remark ; ", s.LongLineBytes/14) + "\n| where k > 1"})
+			s.Seps = append(s.Seps, "\n", "\n", "\n")
+			kinds += "MMM"
 		}
 		checkOne := func(sc *cliScript) {
 			msg, herr := checkCLI(sc)
@@ -400,7 +422,7 @@ func TestC16Scripts(t *testing.T) {
 		}
 		checkOne(s)
 		// metamorphic: terminating the final statement or not makes no difference
-		if len(s.Stmts) > 0 && s.LongLineBytes == 0 {
+		if len(s.Stmts) > 0 && s.LongLineBytes <= 65000 {
 			twin := *s
 			twin.FinalSemi = !s.FinalSemi
 			if !twin.FinalSemi && strings.Contains(s.Stmts[len(s.Stmts)-1].Text, "//") {
@@ -411,8 +433,13 @@ func TestC16Scripts(t *testing.T) {
 		st.Class("transport:" + s.Transport)
 		st.Class(fmt.Sprintf("outfile:%v", s.OutFile))
 		st.Class(fmt.Sprintf("crlf:%v", s.CRLF))
-		if s.LongLineBytes > 0 {
-			st.Class("long-line")
+		if s.LongLineBytes > 65000 {
+			st.Class("line-beyond-64KiB")
+		} else if s.LongLineBytes > 0 {
+			st.Class("long-lines-below-64KiB")
+		}
+		if s.StaleOut {
+			st.Class("output-file-existed")
 		}
 		nt := strings.Contains(kinds, "Q*") || strings.Contains(kinds, "qQ") || strings.Contains(kinds, "lQ") || strings.Contains(kinds, "qL") || (strings.Contains(kinds, "L") && strings.HasSuffix(kinds, "Q*"))
 		if nt {
